@@ -281,16 +281,19 @@ class UTPM(Ring, RawAlgorithmsMixIn):
         ybar, dummy, xbar = out
         # print 'xbar =', xbar
         # print 'ybar =', ybar
+        # x may be a view of y itself (y[sl] = y[k]): take the adjoint of the
+        # overwritten entries out of ybar before accumulating it into xbar
+        tmp = ybar[sl].copy()
+        ybar[sl].data[...] = 0.
         if not isinstance(xbar, UTPM):
             # x is a constant (scalar or array): it has no adjoint
             pass
-        elif xbar.shape != ybar[sl].shape:
+        elif xbar.shape != tmp.shape:
             # x has been broadcasted into y[sl]: sum the adjoint over the broadcasted axes
-            xbar2, tmp = cls.broadcast(xbar, ybar[sl])
+            xbar2, tmp = cls.broadcast(xbar, tmp)
             workaround_strides_function(xbar2, tmp, operator.iadd)
         else:
-            xbar += ybar[sl]
-        ybar[sl].data[...] = 0.
+            xbar += tmp
         # print 'funcargs=',funcargs
         # print y[funcargs[0]]
 
